@@ -56,6 +56,22 @@ def eng_show(pid, tier, wd, known, replay=None):
             continue
         if any(x["id"] != 0 for x in spec.all_sets(c["tree"])) and (c["defect"].startswith("none") or rng.random() < 0.5):
             progs.append(c)
+    if replay is None:
+        mk = synth.mkprov
+        for shape in range(3):
+            s3 = synth.mkset(3, [], [mk(3, 4, [])]); s2 = synth.mkset(2, [s3], [mk(2, 2, [4])])
+            anon = synth.mkset(5, [s2] if shape != 1 else [synth.mkset(6, [s2], [])], [mk(5, 6, [2])])
+            s1 = synth.mkset(1, [anon] + ([synth.mkset(4, [], [mk(4, 8, [])])] if shape == 2 else []), [mk(1, 0, [6])])
+            tree = synth.mkset(0, [s1], [])
+            c = prog.make_prog(rng, base=((tree, [], 0), "none:named-below-anonymous"), opts={"names_p": 0.0, "inline_p": 0.0, "dupset_p": 0.0})
+            for x in spec.all_sets(c["tree"]):
+                x["pkg"] = 1 if x["id"] != 0 else 0
+                for q in x["providers"]:
+                    q["pkg"] = 1
+                if x["id"] in (5, 6):
+                    x["inline"] = True
+            if not prog.renderable(c):
+                progs.insert(0, c)
     root = os.path.join(wd, "show_mod")
     renders = prog.write_module(root, progs)
 
